@@ -17,6 +17,7 @@ model image is re-synchronised with the mirror so that one defect is reported on
   fsp retype <name> <code|none> <real>                   → ok | bad …
   fsp get <name>                                         → ok <ftype> <eof> <nchunks> <adler> | err:<class>
   fsp free                                               → ok <n> | err:<class>
+  fsp q                                                  → ok <free> <name>:<blocks>:<type>,… | err:<class>   (free + cat)
   fsp cat                                                → ok <name>:<blocks>:<type>,… | err:<class>
 
 `<real>` is `ok` or `err:<class>` with the classes of `Err.token`.  Names and dates are hex.
@@ -113,6 +114,12 @@ def handle (mirror : Raw) (st : St) (toks : List String) : St × String :=
     match statFree st.raw with
     | .ok n => (st, s!"ok {n}")
     | .error e => (st, s!"err:{e.token}")
+  | ["q"] =>
+    -- free count and catalog in one round trip
+    match statFree st.raw, catalog st.raw with
+    | .ok n, .ok rows => (st, s!"ok {n} " ++ (if rows.isEmpty then "-" else ",".intercalate (rows.map (fun (n, b, t) => s!"{Hex.toHex n}:{b}:{t}"))))
+    | .error e, _ => (st, s!"err:{e.token}")
+    | _, .error e => (st, s!"err:{e.token}")
   | ["cat"] =>
     match catalog st.raw with
     | .ok rows => (st, "ok " ++ (if rows.isEmpty then "-" else ",".intercalate (rows.map (fun (n, b, t) => s!"{Hex.toHex n}:{b}:{t}"))))
